@@ -226,7 +226,8 @@ class CleanStream(Stream):
                 ["scr", "d"], ["scr/cylc-run", "d"], ["scr/cylc-run/wf", "d"], ["scr/cylc-run/wf/log", "d"],
                 ["cylc-run/wf/log", "l", "/scr/cylc-run/wf/log"], ["ext", "d"], ["ext/keep", "f"]]
         return [
-            # finding: matched dir `cat` and a deeper match `cat/b/cow` while a std symlink dir exists
+            # regression (fixed in /repo 877abf5): matched dir `cat` and a deeper match `cat/b/cow` while a std
+            # symlink dir exists used to crash with FileNotFoundError and leave `zed/cup`
             {"tree": base, "id": "wf", "patterns": ["**/c*"], "kind": "targeted"},
             # same tree, no std symlink dir: works
             {"tree": [e for e in base if e[0] != "cylc-run/wf/log"], "id": "wf", "patterns": ["**/c*"], "kind": "targeted"},
@@ -597,8 +598,27 @@ class ParseStream(Stream):
 STREAMS = [CleanStream(), ParseStream()]
 
 META = {
-    "level_text": "see Props/C38.v",
-    "level_note": "",
-    "technique": "Coq proof + in-Coq differential correspondence on real scratch trees + sentinel oracle",
+    "level_text": (
+        "Coq theorems over Model/Fs.v (flat physical filesystem map with kernel-style symlink walk; get_symlink_dirs, "
+        "glob_in_run_dir's filter, _clean_using_glob, remove_dir_or_file, remove_dir_and_target, wholesale branch): "
+        "(1) accepted --rm parts contain only names (no '..'/'.'/empty) and, read lexically, never climb above the run dir; "
+        "(2) for ALL trees, run dirs, get_symlink_dirs results and pattern sequences with lexical glob results (or wholesale), "
+        "every entry removed by the core of clean() lies at/below the run dir entry, its real location or the real target of "
+        "a standard symlink dir — so nothing is removed through a non-standard symlink; an invalid standard symlink makes "
+        "clean refuse with the tree untouched; (3) a symlink is removed as its own entry only; (4) the removal loop never "
+        "fails and leaves none of its paths existing, every path kept by glob_in_run_dir is gone after a pattern, and every "
+        "glob match is blocked by a non-standard symlink, kept, or below a kept path. The model is tied to clean.py/"
+        "pathutil.py/workflow_files.py by running the real clean() and parse_rm_dirs on generated scratch trees/patterns and "
+        "comparing the resulting tree / parse result with the model inside Coq; an independent oracle checks that all "
+        "sentinels outside the workflow survive and every non-blocked match is gone."),
+    "level_note": (
+        "partial: glob.iglob+sorted is an oracle (recorded per pattern; hypothesis: matches are lexical descendants of the run "
+        "dir, checked on every match); the last step of full completeness (a match below a removed kept path no longer "
+        "exists) needs tree well-formedness and is stated as Definition c38_complete_full, not proved; the tidy-up of clean() "
+        "(runN, _cylc-install, empty parents) is modelled and compared but has no theorem; remote clean is out of scope. "
+        "The defect found by this check (FileNotFoundError on a match below an already removed match) is fixed in /repo "
+        "(877abf5); its witness is a regression case and a Coq Example."),
+    "technique": "Coq proof (invariant over extension-closed deletions + symlink-walk lemmas) + recorded-oracle glob + "
+                 "in-Coq differential correspondence on real scratch trees + sentinel/completeness oracle",
     "design_ref": "5/C38",
 }
